@@ -15,7 +15,7 @@ bad_suite = [l for l in suite if ("FAILED" in l or "failed" in l) and not re.sea
 # demo tests listed in the suite run (the demo file sits in tests/ during the run) are expected to fail
 demo_tests = set(re.findall(r"test (\w+) \.\.\. FAILED", sec[2])) if len(sec) > 2 else set()
 bad_suite = [l for l in bad_suite if not any(t in l for t in demo_tests) and "passed;" not in l or ("passed;" in l and not re.search(r"\d+ failed", l))]
-demo_with = "FAILED" in sec[2] if len(sec) > 2 else False
+demo_with = ("FAILED" in sec[2] or "error: test failed" in sec[2]) if len(sec) > 2 else False  # (a demo that dies of stack overflow only prints the error line)
 demo_without = ("test result: ok" in sec[3] and "FAILED" not in sec[3]) if len(sec) > 3 else False
 # C20 seeds live in a non-default feature configuration: confirm.txt then carries a "custom confirmation" section run under it
 if "custom confirmation" in conf:
@@ -77,7 +77,38 @@ HISTORY_R2 = {
  "C20-m1": "caught by c08q_bytes_* which were added to C20's per-configuration runs after this change arrived",
  "C20-m2": "caught by c12q_ml_box_* which were added to C20's per-configuration runs after this change arrived",
 }
-if os.environ.get("SEED_SUFFIX"):
+HISTORY_R3 = {
+ "C01-m1": "MISSED at first (the largest count was 16384); c01q_count_u32_max_prefix added: a slice of 2^32-1 unit values costs no memory, the sink checks the five prefix bytes and cuts the path",
+ "C01-m2": "NOT CAUGHT, outside the feasible region: needs an owned BitVec with stale bits behind its end (decode, truncate, repeat); BitVec encode of a decoded/owned vector does not finish (2400 s cap)",
+ "C02-m1": "NOT CAUGHT, outside the bounds: needs a String > 16 KiB with a multi-byte character across a read chunk; UTF-8 validation of 64 symbolic bytes already exceeds 400 s",
+ "C03-m2": "MISSED at first (with the cap gone the count still fails for lack of data, so accept/reject is unchanged for small inputs); c03q_bitvec_cap_fires_before_alloc added: the cap must fire before any allocation is announced",
+ "C06-m1": "NOT CAUGHT, outside the feasible region (see C01-m2 of this round)",
+ "C06-m2": "NOT CAUGHT, outside the feasible region: BitBox::from_bitslice at a non-zero offset does not finish (2400 s cap)",
+ "C07-m2": "MISSED at first (strings were ASCII: char count == byte count; two harnesses timed out instead); c07q_ent_str_non_ascii added",
+ "C08-m2": "MISSED at first under C08 (no Duration array among the input-kind shapes; C13's fixed-size list does catch the wrong encoded_fixed_size); c08q_in_arr_duration_1 added",
+ "C09-m1": "MISSED at first (no BitVec among the hostile-count shapes); c09q_bitvec_hostile_unk / _slice added",
+ "C09-m2": "MISSED at first (hostile counts were never decoded through the library's wrapper inputs); c09q_wrapped_vec_* and c09q_api_limits_wide_63 added",
+ "C10-m1": "MISSED at first (the ledger sees element constructions and drops, not heap blocks); live heap-block counting stubs (alloc +1 / Global::deallocate -1) with a native per-thread counterpart: c10q_blocks_*",
+ "C10-m2": "MISSED at first (no transparent struct whose only sized field is skipped); STransSkipSized added, c10q_derived_*_inplace_skip / c05q_*_inplace_skip check skipped fields after Box/array decode",
+ "C11-m2": "MISSED at first (vectors had <= 2 elements: one preallocation chunk); c11q_multi_chunk_vec_is_one_level added (3 elements of 2 KiB)",
+ "C12-m1": "MISSED at first (list elements were <= pointer size, where pointer-instead-of-element is not smaller); LinkedList<[u64;5]> added to c12q_hook_every_count",
+ "C13-m1": "MISSED at first (only built-in element types, whose wire and memory sizes agree); user type Rec (5 bytes on the wire, 8 in memory) in arrays: c13q_fix_arr_user_rec",
+ "C13-m2": "MISSED at first (no enum whose variants share field types but differ in attributes); EDupTypes / EDupTypes2 added to the derive family",
+ "C14-m1": "MISSED at first under C14's quick tier (Compact<u16> alone only in the thorough list; C04's c04q_dec_u16 catches it as-is)",
+ "C14-m2": "MISSED at first (IoReader only under C08 and only on full-length streams); std-configuration run for C14/C18 with streams that end anywhere: c14q_ioreader_*",
+ "C15-m2": "MISSED at first (batches were <= 3 items or unrepresentable); the unit-item iterator now elides the loop, so EVERY batch size is decided incl. appends that skip a prefix width class",
+ "C16-m1": "MISSED at first under C16 (EncodeLike pairs were compared through encode_to only; C07's c07q_ent_arr_* catch it as-is); using_encoded/encode added to the comparison",
+ "C16-m2": "NOT CAUGHT, outside the bounds (see C02-m1 of this round)",
+ "C18-m1": "NOT CAUGHT, outside the bounds: needs a string > 128 bytes with a multi-byte character at a chunk boundary",
+ "C18-m2": "MISSED at first (skip was never run through IoReader); c18q_ioreader_* added (std configuration)",
+ "C19-m1": "MISSED at first (CountedInput was only used for decode); c19q_unkskip_* run skip through it",
+ "C19-m2": "MISSED at first (the inner input always knew its length); c19q_unkskip_* use an unknown-length inner input with truncated data",
+ "C20-m1": "NOT CAUGHT and outside the engine: needs a panic inside a using_encoded closure followed by another call on the same thread (Kani models panic as abort)",
+ "C20-m2": "MISSED at first under C20 (Result was not in the per-configuration core list; C03's own no-std run catches it); c03q_res_u8_u16 added to the core list that runs with every optional feature off",
+}
+if os.environ.get("SEED_SUFFIX") == "-r3":
+    HISTORY = HISTORY_R3
+elif os.environ.get("SEED_SUFFIX"):
     HISTORY = HISTORY_R2
 dst.mkdir(parents=True, exist_ok=True)
 shutil.copy(src / "patch.diff", dst / "patch.diff")
@@ -91,6 +122,7 @@ meta = {
                         "demo_fails_with_change": demo_with, "demo_passes_without_change": demo_without, "suite_lines": suite[:40]},
     "checks_run": [{"property": p, "exit": int(e)} for p, e in evaluated],
     "caught_by": caught, "counterexample_harnesses": harnesses,
+    "caught_as_is": (sorted(set(re.findall(r"VIOLATION property=(C\d+)", (src / "eval_frozen.txt").read_text()))) if (src / "eval_frozen.txt").exists() else None),
     "history": HISTORY.get("%s-m%s" % (ID, k), "caught by the checks as they were when the change arrived (no strengthening needed)"),
     "eval_excerpt": [l for l in ev.splitlines() if "VIOLATION" in l or "INCONCLUSIVE" in l or "harnesses held" in l][:20],
 }
